@@ -24,6 +24,8 @@ type c14send struct {
 }
 
 // c14check verifies that every write is exactly one well-formed message of a known shape.
+const c14domain = 0x0A0B0C07
+
 func c14checkLog(conn *vnet.FakeConn, ts []*expTmpl) {
 	byID := map[uint16]*expTmpl{}
 	for _, t := range ts {
@@ -38,6 +40,9 @@ func c14checkLog(conn *vnet.FakeConn, ts []*expTmpl) {
 						records += uint32(len(recs))
 					}
 				}
+			}
+			if pm.Header.Domain != c14domain {
+				vsched.Fail("domain-on-wire", "write #%d (set id %d, thread %d) carries observation domain %#x, the exporting process was configured with %#x", i, pm.SetID, w.Thread, pm.Header.Domain, uint32(c14domain))
 			}
 			if pm.Header.Seq != records {
 				vsched.Fail("sequence-on-wire", "write #%d (set id %d, thread %d) carries sequence number %d, but %d data records have been transmitted up to and including it", i, pm.SetID, w.Thread, pm.Header.Seq, records)
@@ -88,7 +93,7 @@ func c14leak(what string) {
 
 func c14UDP(name string, advances int, closers int, sends []c14send, ts []*expTmpl) *vsched.Scenario {
 	main := func() {
-		ep, err := exporter.InitExportingProcess(exporter.ExporterInput{CollectorAddress: "127.0.0.1:4739", CollectorProtocol: "udp", ObservationDomainID: 7, TempRefTimeout: 1})
+		ep, err := exporter.InitExportingProcess(exporter.ExporterInput{CollectorAddress: "127.0.0.1:4739", CollectorProtocol: "udp", ObservationDomainID: c14domain, TempRefTimeout: 1})
 		if err != nil {
 			panic(err)
 		}
@@ -211,13 +216,14 @@ func c14UDP(name string, advances int, closers int, sends []c14send, ts []*expTm
 	return &vsched.Scenario{Name: name, Main: main, TrackRaces: true, Start: t0}
 }
 
-func c14TCP(name string, closers int, sends []c14send, ts []*expTmpl) *vsched.Scenario {
+// quietTicks: check intervals that pass with the connection healthy before the collector closes its side
+func c14TCP(name string, closers int, sends []c14send, ts []*expTmpl, quietTicks ...int) *vsched.Scenario {
 	main := func() {
 		l, err := vnet.Listen("tcp", "127.0.0.1:4739")
 		if err != nil {
 			panic(err)
 		}
-		ep, err := exporter.InitExportingProcess(exporter.ExporterInput{CollectorAddress: "127.0.0.1:4739", CollectorProtocol: "tcp", ObservationDomainID: 7, CheckConnInterval: time.Second})
+		ep, err := exporter.InitExportingProcess(exporter.ExporterInput{CollectorAddress: "127.0.0.1:4739", CollectorProtocol: "tcp", ObservationDomainID: c14domain, CheckConnInterval: time.Second})
 		if err != nil {
 			panic(err)
 		}
@@ -249,6 +255,11 @@ func c14TCP(name string, closers int, sends []c14send, ts []*expTmpl) *vsched.Sc
 			}
 		})
 		env := vsched.Go("env", func() {
+			if len(quietTicks) > 0 {
+				for i := 0; i < quietTicks[0]; i++ {
+					vsched.Advance(time.Second)
+				}
+			}
 			sv.Close() // the collector closes its side
 			vsched.Advance(time.Second)
 		})
@@ -287,7 +298,7 @@ func c14Blocked(name string, ts []*expTmpl) *vsched.Scenario {
 		if err != nil {
 			panic(err)
 		}
-		ep, err := exporter.InitExportingProcess(exporter.ExporterInput{CollectorAddress: "127.0.0.1:4739", CollectorProtocol: "tcp", ObservationDomainID: 7, CheckConnInterval: time.Hour})
+		ep, err := exporter.InitExportingProcess(exporter.ExporterInput{CollectorAddress: "127.0.0.1:4739", CollectorProtocol: "tcp", ObservationDomainID: c14domain, CheckConnInterval: time.Hour})
 		if err != nil {
 			panic(err)
 		}
@@ -320,7 +331,7 @@ func c14Blocked(name string, ts []*expTmpl) *vsched.Scenario {
 // the connection.
 func c14JSON(name string, ts []*expTmpl) *vsched.Scenario {
 	main := func() {
-		ep, err := exporter.InitExportingProcess(exporter.ExporterInput{CollectorAddress: "127.0.0.1:4739", CollectorProtocol: "udp", ObservationDomainID: 7, TempRefTimeout: 1, SendJSONRecord: true})
+		ep, err := exporter.InitExportingProcess(exporter.ExporterInput{CollectorAddress: "127.0.0.1:4739", CollectorProtocol: "udp", ObservationDomainID: c14domain, TempRefTimeout: 1, SendJSONRecord: true})
 		if err != nil {
 			panic(err)
 		}
@@ -362,6 +373,7 @@ func c14E2(tier string) []*e2Scenario {
 		{Name: "udp-1b-two-refreshes", Sc: c14UDP("udp-1b-two-refreshes", 2, 0, sends[:3], ts), Bound: b},
 		{Name: "udp-2-concurrent-close", Sc: c14UDP("udp-2-concurrent-close", 1, 2, short2, ts), Bound: b},
 		{Name: "tcp-1-peer-close", Sc: c14TCP("tcp-1-peer-close", 0, sends[:3], ts), Bound: b},
+		{Name: "tcp-1b-peer-close-after-quiet-checks", Sc: c14TCP("tcp-1b-peer-close-after-quiet-checks", 0, sends[:2], ts, 2), Bound: b},
 		{Name: "tcp-2-checker-close-vs-close", Sc: c14TCP("tcp-2-checker-close-vs-close", 2, short2[:1], ts), Bound: b},
 		{Name: "tcp-3-close-vs-blocked-write", Sc: c14Blocked("tcp-3-close-vs-blocked-write", ts), Bound: b + 1},
 		{Name: "udp-json-refresh", Sc: c14JSON("udp-json-refresh", ts), Bound: b + 1},
